@@ -66,14 +66,14 @@ PROPS = {
     },
     "C15": {
         "n": {"quick": 250, "thorough": 4000},
-        "cone": ["Telnet", "TelnetLemmas"],
+        "cone": ["Telnet", "TelnetLemmas", "DecideLang", "GeneratedSkel", "Decide"],
         "rule": "real transport.Telnet against a loopback TCP server: openings drawn from the RFC 854 token grammar (option negotiations with all "
                 "four verbs x option codes incl. SGA, two-byte commands NOP/GA/..., escaped IAC, banner data) x random TCP segmentations; compared: "
                 "bytes the server received, bytes returned by the first reads; non-trivial = opening has a negotiation and data A quarter of the cases first open a connection that ends inside a telnet command on the SAME transport object, then the opening under test on a new connection.",
         "level_text": "Theorem C15_negotiation: for every token sequence the byte-at-a-time parser answers each option request exactly once with the "
                       "RFC answer, ends outside control mode and buffers exactly the data bytes in order (induction over tokens, all option codes, "
                       "unbounded). The model is tied to transport/telnet.go by running the real transport over loopback TCP.",
-        "level_note": "Trusted: kernel, generated telnet constants, extraction, harness TCP peer. Subnegotiation (IAC SB ... IAC SE) is outside "
+        "level_note": "C15_handle_is_source: handleControlCharResponse is translated statement by statement from the Go AST on every run and proved to act on (control buffer, data, replies) exactly as the model for every buffer and byte. Trusted: kernel, generated telnet constants, extraction, harness TCP peer. Subnegotiation (IAC SB ... IAC SE) is outside "
                       "the property's grammar and the model. The timeout that ends the negotiation phase is runtime behaviour (observed, not proved).",
     },
     "C19": {
